@@ -45,6 +45,9 @@ impl<H: Hal, T: Transport> VirtIO9p<H, T> {
         if !features.contains(Feature::MOUNT_TAG) {
             return Err(Error::Unsupported);
         }
+        // Read the mount tag before the queue is created and the device goes live, so that an
+        // invalid tag doesn't make us free the memory of a queue which the device may be using.
+        let mount_tag = read_mount_tag(&transport)?;
 
         let queue = VirtQueue::new(
             &mut transport,
@@ -54,8 +57,6 @@ impl<H: Hal, T: Transport> VirtIO9p<H, T> {
             features.contains(Feature::ACCESS_PLATFORM),
         )?;
         transport.finish_init();
-
-        let mount_tag = read_mount_tag(&transport)?;
 
         Ok(Self {
             transport,
